@@ -190,6 +190,10 @@ pub fn text_strategy() -> impl Strategy<Value = String> {
         .prop_map(|(index, op, at, ch)| mutate(&Mutation { index, op, at, ch }));
     prop_oneof![
         3 => "[a-h][1-8][a-h][1-8][qrbnkQ ]?.{0,3}",
+        // two squares followed by the characters that chess notations put after a move
+        3 => "[a-h][1-8][a-h][1-8][qrbnkpQRBNKP=+#x_.:!?/ 0189-]{1,4}",
+        1 => "[a-hA-H][0-9][a-hA-H][0-9][qrbnQRBN]?",
+        1 => "[ \\t]?[a-h][1-8][ -]?[a-h][1-8][ =]?[qrbn]?[ \\n]?",
         2 => "\\PC{0,12}",
         4 => mutation,
         2 => "[a-h1-8qrbnx é中 ]{0,7}",
@@ -220,7 +224,7 @@ pub fn run(cfg: &Cfg) -> i32 {
     engine::finish(
         report,
         EvidenceSpec {
-            rule: "cases = all 20480 move values and 64 squares (render compared with independently computed text, parsed back), then generated strings: regex-shaped near-moves, arbitrary printable Unicode, valid renderings mutated (truncated at every offset, a character - often multi-byte - inserted / substituted / appended at every offset, doubled, one character removed), short strings over a move-like alphabet. For every string ChessMove/Square/File/Rank::from_str must not panic and a successful move or square parse must render to a prefix of the input. evaluations = values + strings. Non-trivial = move value with a promotion, or a string that is non-ASCII or not 4/5 bytes long; distinct = fingerprints of values / strings.".into(),
+            rule: "cases = all 20480 move values and 64 squares (render compared with independently computed text, parsed back), then generated strings: regex-shaped near-moves (also two squares followed by 1-4 characters that notations put after a move: promotion letters in either case, = + # x, digits, punctuation; upper-case files; embedded spaces), arbitrary printable Unicode, valid renderings mutated (truncated at every offset, a character - often multi-byte - inserted / substituted / appended at every offset, doubled, one character removed), short strings over a move-like alphabet. For every string ChessMove/Square/File/Rank::from_str must not panic and a successful move or square parse must render to a prefix of the input. evaluations = values + strings. Non-trivial = move value with a promotion, or a string that is non-ASCII or not 4/5 bytes long; distinct = fingerprints of values / strings.".into(),
             assumptions: vec!["none beyond the Rust standard library's string handling".into()],
             trusted_base: vec!["proptest 1.11 (regex string strategies)".into()],
             exhaustive: None,
